@@ -204,8 +204,22 @@ class Engine {
   std::map<std::string, std::string> model_map(const z3::model &m) {
     std::map<std::string, std::string> r;
     for (auto &v : vars) {
-      z3::expr val = m.eval(v.second, true);
       std::string s;
+      if (v.second.get_sort().sort_kind() == Z3_FLOATING_POINT_SORT) {
+        z3::expr bits = m.eval(z3::expr(ctx(), Z3_mk_fpa_to_ieee_bv(ctx(), v.second)), true).simplify();
+        std::ostringstream os;
+        z3::expr isnan = m.eval(z3::expr(ctx(), Z3_mk_fpa_is_nan(ctx(), v.second)), true).simplify();
+        // to_ieee_bv of NaN is unspecified in the FP theory: use the canonical quiet NaN
+        os << "bits:" << (isnan.is_true() ? 0x7ff8000000000000ULL : bits.get_numeral_uint64());
+        z3::expr fv = m.eval(v.second, true);
+        os << "(" << fv << ")";
+        std::string t = os.str();
+        for (auto &ch : t)
+          if (ch == ' ') ch = '_';
+        r[v.first] = t;
+        continue;
+      }
+      z3::expr val = m.eval(v.second, true);
       if (val.is_numeral()) {
         s = val.numerator().get_decimal_string(0);
         std::string dn = val.denominator().get_decimal_string(0);
@@ -490,6 +504,8 @@ inline Bool iff(const Bool &a, const Bool &b) { return Bool(a.e == b.e); }
 class Engine {
  public:
   std::map<std::string, Q> model;
+  std::map<std::string, unsigned long long> fmodel;  // IEEE bit patterns for sym::F64 variables
+  const char *logic = nullptr;
   bool assumptions_ok = true;
   static Engine &get() {
     static Engine e;
